@@ -34,6 +34,23 @@ CHECKS.update({
    text="Write: every slice length 0..565 through the four adapter constructors with a failing packet writer at every index. ReadFrom: for each stream shape (0..3 packets + partial tail) every uniform chunk size 1..377 and every scripted-reader execution with <=4 (quick) / <=5 (thorough) deviations from the plain answer (short read sizes, EOF with data, injected error, failing writer) is executed; delivered packets (copied at call time), returned count and error are compared with the stream model.",
    note="A reader that returns (0,nil) forever is outside the model; count on a failed Write and delivery of a packet completed by bytes returned together with a non-EOF error are not asserted.", design="3/C18"),
 })
+CHECKS.update({
+ "C02": dict(engine="enum", technique="exhaustive enumeration of well-formed packet shapes (every adaptation_field_length x every optional-field combination) x every payload length 0..200 on the real SetPayload/accessors vs. a logical packet model",
+   text="Every well-formed packet shape (no adaptation field, length 0..182 with payload, 183 adaptation-field-only; all 32 optional-field subsets with private/extension lengths {0,1,3}; header and old-payload patterns) is put through the partition accessors and SetPayload with every length 0..200 and two contents, plus a second SetPayload on boundary results; the resulting 188 bytes must equal header || same logical adaptation field with 0xFF stuffing || stored payload, with count == min(n, capacity). Creation helpers are enumerated over all PIDs/counters/flags.",
+   note="PUSI of CreateTestPacket is asserted only when the packet carries payload; the discontinuity bit written by CreateDCPacket/WithContinuousAF without an adaptation-field flag is not asserted.", design="3/C02"),
+ "C07": dict(engine="tree", technique="exhaustive enumeration of PAT sections (entry sequences x PIDs x reserved bits) through six carriers plus a deviation-bounded choice tree over stream layouts and reader fragmentation, on the real decoder vs. an independent section reader/builder",
+   text="All program-number sequences of 0..4 (thorough 0..6) entries with the full product of per-entry PIDs and reserved bits, the 42- and 253-entry maxima, and a choice tree over stream layouts (foreign/decoy packets before the PAT, absent PAT, partial tail, reader styles) are decoded by gots and compared with a bit-writer-built section and its independent parse: NumPrograms, ProgramMap, SPTSpmtPID, IsPMT on every relevant PID, ErrPATNotFound.",
+   note="pointer_field != 0, duplicate non-zero program numbers and 188-byte payload strings (taken for a packet) are outside the asserted space.", design="3/C07"),
+ "C11": dict(engine="enum", technique="exhaustive enumeration of PES header shapes (256 stream ids x flag bytes x timestamp indicators x header_data_length/stuffing x lengths) and carrying packets on the real decoder vs. a bit-writer PES builder",
+   text="Every stream id with every menu combination of flag bits, PTS/DTS indicator, boundary timestamps, optional fields, stuffing up to header_data_length 255, payload and PES_packet_length variants is built by an independent PES builder and decoded by gots (prefix, stream id, alignment, PTS/DTS presence and values, data bytes); packet-level PESHeader/AlignedPUSI conditions are enumerated over payload lengths, PUSI and start-code variants.",
+   note="Stream id 0xBC is judged only on prefix/id/no-panic (the statement's list and ISO 13818-1 disagree); alignment/timestamps are not judged for ids without optional header.", design="3/C11"),
+ "C12": dict(engine="enum", technique="exhaustive enumeration of EBP structures (both flavours x all 256 flag bytes x field menus x grouping chains) and setter sequences, and a nanosecond sweep of the time conversion, on the real codec vs. an independent builder/parser",
+   text="Both EBP flavours with all 256 flag bytes, extension/SAP/grouping-chain/time/partition/reserved-byte menus are built by an independent reference, decoded by gots (every getter), and re-encoded (byte identity); every sequence of <=4 (thorough <=5) flag setters is encoded and decoded back; SetEBPTime/EBPTime is swept over boundary seconds x boundary nanoseconds (thorough: all 10^9 nanoseconds for 8 seconds values).",
+   note="Rounding of fraction to nanoseconds may be floor or ceil; Sap()/EBPTime() with their flag clear and SuccessReadTime are not observed.", design="3/C12"),
+ "C17": dict(engine="bfs", technique="explicit-state BFS over WritePacket/Reset histories on the live accumulator (canonical key from a private-state hook) for nine completion predicates, plus enumerated long accumulations, vs. a list model",
+   text="All histories over 10 packets + Reset to depth 6 (thorough 8) are explored per predicate with deduplication on private state + bytes + packets; after every call Bytes(), Packets(), the predicate's argument, error class, input immutability and aliasing probes are compared with a list model, and Reset must reproduce the canonical state of a new accumulator; long accumulations (up to 40/400 continuation packets) cover sizes beyond the BFS depth.",
+   note="Not asserted: whether a refused no-payload packet appears in Packets(), whether a packet whose predicate evaluation failed counts as accepted, the returned byte count.", design="3/C17"),
+})
 NOT_APPLICABLE = {}
 def main():
     props=[json.loads(l)['id'] for l in open('/verif/properties.jsonl')]
